@@ -63,6 +63,7 @@ def run(chk: Check) -> None:
 
     found_classes: dict[str, int] = {}
     lost_any = top_unknown = False
+    aloop = asyncio.new_event_loop()
 
     def taint() -> str:
         return ".after-lost-announcement" if lost_any else ".after-top-unknown-announcement" if top_unknown else ""
@@ -72,7 +73,7 @@ def run(chk: Check) -> None:
         flog = FaultLog(tcs)
         ctl: list[int] = []          # controller's log, newest first (stamps as minute counters)
         clock = 0
-        for _ in range(rnd.choice((0, 0, 2, 5, 5, 61, 62, 63, 64, 70) if h % 5 == 0 else (0, 0, 2, 5))):  # entries logged before we started listening
+        for _ in range(rnd.choice((0, 0, 2, 5, 5, 61, 62, 63, 64, 70) if h % (5 if thorough else 20) == 0 else (0, 0, 2, 5))):  # entries logged before we started listening
             clock += rnd.randint(1, 5)
             ctl.insert(0, clock)
         reported: set[int] = set()
@@ -137,7 +138,7 @@ def run(chk: Check) -> None:
 
                     flog._process_msg = spy
                     try:
-                        asyncio.run(flog.get_faultlog(start=start, limit=limit))
+                        aloop.run_until_complete(flog.get_faultlog(start=start, limit=limit))
                     finally:
                         del flog._process_msg
                     for i in asked:
@@ -223,6 +224,7 @@ def run(chk: Check) -> None:
             D.add("flog.run", [";".join(evs)], "ok\t" + "|".join(maps)) if ok_hist or True else None
         if h < 3:
             chk.sample({"events": evs, "final_view": maps[-1] if maps else ""})
+    aloop.close()
     chk.extra["violation_classes_seen"] = found_classes
     D.run()
 
